@@ -179,12 +179,25 @@ def run(R):
                 R.counterexample('re-entrant', 'nested-parse-from-' + name, {'grammar': desc, 'text': text}, want, got)
                 break
     # ---- compiling further grammars (extending / re-using the name) does not alter an existing module ----
-    base = Grammar('grammar c18base\nstart = W+\nW = /[a-z]/\n')
-    before = [outcome(base, t) for t in ('ab', 'a1', '')]
-    Grammar('grammar c18child extends c18base\noverride W = /[0-9]/\n')
-    mid = [outcome(base, t) for t in ('ab', 'a1', '')]
+    base = Grammar('grammar c18base\nstart = W+\nW = /[a-z]/\nclass K { w: W; rest: W* }\nPair(x) = [x, x]\nTwo = Pair(W)\n')
+
+    def observe_all(m):
+        out = []
+        for t in ('ab', 'a1', '', '12', 'a'):
+            out.append(outcome(m, t))
+            for en in ('W', 'K', 'Two'):
+                ent = getattr(m, en)
+                try:
+                    out.append('return ' + canon(ent.parse(t)))
+                except Exception as e:          # noqa
+                    out.append('exception ' + type(e).__name__ + ' ' + str(getattr(e, 'position', getattr(e, 'last_position', '')))[:40])
+        return out
+    before = observe_all(base)
+    child = Grammar('grammar c18child extends c18base\noverride W = /[0-9]/\n')
+    observe_all(child)
+    mid = observe_all(base)
     other = Grammar('grammar c18base\nstart = "zzz"\n')
-    after = [outcome(base, t) for t in ('ab', 'a1', '')]
+    after = observe_all(base)
     R.count('other-grammars', 'extend', nontrivial=True)
     R.count('other-grammars', 'reuse-name', nontrivial=True)
     if mid != before:
